@@ -102,6 +102,26 @@ CHECKS = {
              "state is the user's.",
         technique="Coq proof (heap frame lemma, induction over schedules "
                   "and histories) + state census + differential runs"),
+    "C18": dict(
+        text="Theorems: parse_range(render_ranges units rs) = {units: rs} "
+             "for every list of first-last / first- / -suffix items with "
+             "arbitrary non-negative integers (up to CPython's 4300-digit "
+             "limit) and parse_range never raises; days_from_civil "
+             "(civil_from_days z) = z for every day and the HTTP date round "
+             "trip for every second 1970..9999; negotiation list round trip "
+             "and totality; the add_header -> parse_header parameter round "
+             "trip for all values except a non-last value ending in a "
+             "backslash (refuted by witness = known finding), the unescape/"
+             "escape inversion and totality of parse_header. Correspondence "
+             "with the real functions incl. malformed streams; independent "
+             "writers/readers (own RFC 9110 range writer, email.utils) in "
+             "the monitor.",
+        design="7/C18",
+        note="strftime/strptime (C locale) trusted; float(str(q)) = q "
+             "assumed; \\d/int() and str.lower modelled for ASCII / latin-1; "
+             "known finding param-backslash-before-next-param.",
+        technique="Coq proof (lia over civil-date arithmetic, decimal "
+                  "lemmas, list induction) + vm_compute correspondence"),
     "C19": dict(
         text="Theorems: for EVERY sequence of registration/removal calls the "
              "model's views equal those of a declarative registry (map (kind, "
@@ -147,8 +167,9 @@ CHECKS = {
         design="7/C07",
         note="seek/read of BytesIO and files as modelled (ztake/zdrop); "
              "parse_range is covered by C18 and the end-to-end monitor.",
-        technique="Coq proof (lia + list induction) + vm_compute "
-                  "correspondence"),
+        technique="Coq proof (lia + list induction) + source-to-Coq "
+                  "translation with proved equality to the model + "
+                  "vm_compute correspondence"),
     "C09": dict(
         text="Theorems over the model of CachedInput.read/readline (loop "
              "with explicit fuel), for all bodies, declared lengths, block "
@@ -273,6 +294,28 @@ CHECKS = {
         technique="Coq proof (refinement by induction over operation "
                   "histories, lia-based UTF-8 round trip) + vm_compute "
                   "correspondence"),
+    "C15": dict(
+        text="Model regenerated from the source on every run: "
+             "harness/py2pages.py translates the nine built-in page functions "
+             "of results.py into a page IR (literals, holes with taint class, "
+             "escape flag and HTML context, debug branches, row loops); one "
+             "proof obligation per page (guarded = true by computation) is "
+             "re-checked against the current source. Theorems: html_escape "
+             "output is inert for the tokenizer in text, RCDATA and quoted "
+             "attribute values; token characters are inert; for every guarded "
+             "page the element/attribute events of the rendered page do not "
+             "depend on request data or file names (noninterference, "
+             "induction over the IR incl. loops). Correspondence: model page "
+             "vs real page; monitor: html.parser over real pages with marker "
+             "payloads in every request-derived location.",
+        design="7/C15",
+        note="taint table of the translator (unknown = tainted; header "
+             "names and environ keys classed as token characters); tokenizer "
+             "is a simplification of HTML5 tied to html.parser on real pages; "
+             "no <script> contexts (translator rejects them).",
+        technique="source-to-Coq translation (PageIR) + Coq proof "
+                  "(noninterference by induction) + vm_compute "
+                  "correspondence"),
     "C16": dict(
         text="Theorems over the model of get_token/check_token for every "
              "secret, client, T>0 and instants t0,t1>=0 (verify <-> aligned "
@@ -286,7 +329,8 @@ CHECKS = {
         note="SHA-256 injective on the formatted texts (theorem hypothesis); "
              "float rounding of time()/timeout outside the model.",
         technique="Coq proof (lia/nia over Z floor division, decimal "
-                  "injectivity) + vm_compute correspondence"),
+                  "injectivity) + source-to-Coq translation with proved "
+                  "equality to the model + vm_compute correspondence"),
     "C20": dict(
         text="Theorems: the effective debug flag equals the override when "
              "the selected environment (request environ, or process environ "
